@@ -24,7 +24,7 @@ func (p *Parser) parseMatchAgainst(matchFunc *ast.FunctionCall) (ast.Expression,
 
 	// Consume optional mode keywords until we hit )
 	var modeWords strings.Builder
-	for !p.isType(models.TokenTypeRParen) && !p.isType(models.TokenTypeEOF) {
+	for !p.isType(models.TokenTypeRParen) && !p.isType(models.TokenTypeSemicolon) && !p.isType(models.TokenTypeEOF) {
 		modeWords.WriteString(" ")
 		modeWords.WriteString(p.currentToken.Literal)
 		p.advance()
